@@ -31,14 +31,15 @@ func (p *RetryPolicy) CreateWrapper() (w Wrapper)
 // C08: the breaker that is built runs with exactly the configured numbers (thresholds, window type and size,
 // minimum number of calls, half-open permits) and the configured durations (one minute where none is given)
 ghost var gCBPolicy int   // the policy object handed to circuitbreaker.New
+// domain of the breaker's own contracts (policyOK): the schema guarantees a window size >= 1 (Validate is a TODO
+// in the code: a permitted-calls count of 0 is accepted and leaves a half-open breaker with no trial calls);
+// the upper bounds keep the uint32 percentage arithmetic exact
+pred cbDomain(p *CircuitBreakerPolicy) := p != nil && p.SlidingWindowSize >= 1 && p.SlidingWindowSize <= 42949672 && p.PermittedNumberOfCallsInHalfOpen >= 1 && p.PermittedNumberOfCallsInHalfOpen <= 42949672
 
 func (p *CircuitBreakerPolicy) CreateWrapper() (w Wrapper)
   flag allocates
   flag frame=unchecked
-  requires p != nil
-  // domain of the breaker's own contracts (policyOK): the schema guarantees size >= 1; the upper bounds keep the
-  // uint32 percentage arithmetic exact
-  requires p.SlidingWindowSize >= 1 && p.SlidingWindowSize <= 42949672 && p.PermittedNumberOfCallsInHalfOpen >= 1 && p.PermittedNumberOfCallsInHalfOpen <= 42949672
+  requires validated-policy: cbDomain(p)
   modifies gCBPolicy, clock
   ensures breaker-runs-with-the-configured-numbers: let q = ptr(gCBPolicy, "*circuitbreaker.Policy") in (gCBPolicy != 0 && q.FailureRateThreshold == p.FailureRateThreshold && q.SlowCallRateThreshold == p.SlowCallRateThreshold && q.SlidingWindowSize == p.SlidingWindowSize && q.PermittedNumberOfCallsInHalfOpen == p.PermittedNumberOfCallsInHalfOpen && q.MinimumNumberOfCalls == p.MinimumNumberOfCalls)
   ensures window-type-as-configured: let q = ptr(gCBPolicy, "*circuitbreaker.Policy") in (q.SlidingWindowType == (upper(p.SlidingWindowType) == "TIME_BASED" ? circuitbreaker.TimeBased : circuitbreaker.CountBased))
